@@ -218,6 +218,62 @@ impl Property for C04 {
         }
     }
 
+    fn post(&self, tier: Tier, seed: u64, stats: &mut crate::engine::Stats) -> Result<(), (String, String, Vec<u8>)> {
+        // the encoder is used from several scrape threads at once: simultaneous encodes of different family sets (all three
+        // entry points) must each produce exactly what they produce alone
+        let sets = if tier == Tier::Quick { 12 } else { 400 };
+        let rounds = if tier == Tier::Quick { 60 } else { 400 };
+        let mut x = crate::engine::splitmix(seed ^ 0xC04);
+        let mut done = 0u64;
+        for _ in 0..sets {
+            let mut inputs: Vec<(Vec<u8>, Vec<prometheus::proto::MetricFamily>)> = vec![];
+            for _ in 0..3 {
+                let bytes: Vec<u8> = (0..200)
+                    .map(|_| {
+                        x = crate::engine::splitmix(x);
+                        (x >> 24) as u8
+                    })
+                    .collect();
+                let mut src = Src::new(&bytes);
+                let n = gen_custom(&mut src, &GenOpts { allow_untyped: false, allow_empty_family: false, max_families: 6 });
+                inputs.push((bytes, n.iter().map(to_lib).collect()));
+            }
+            let jobs: Vec<Box<dyn Fn() -> Vec<u8> + Sync>> = inputs
+                .iter()
+                .enumerate()
+                .map(|(k, (_, fams))| {
+                    let f: Box<dyn Fn() -> Vec<u8> + Sync> = Box::new(move || {
+                        let enc = TextEncoder::new();
+                        match k {
+                            0 => {
+                                let mut b = Vec::new();
+                                let _ = enc.encode(fams, &mut b);
+                                b
+                            }
+                            1 => {
+                                let mut s = String::new();
+                                let _ = enc.encode_utf8(fams, &mut s);
+                                s.into_bytes()
+                            }
+                            _ => enc.encode_to_string(fams).unwrap_or_default().into_bytes(),
+                        }
+                    });
+                    f
+                })
+                .collect();
+            done += rounds as u64;
+            if let Some((i, round, got)) = crate::iohelp::simultaneous_agreement(&jobs, rounds) {
+                return Err((
+                    "simultaneous-encodes-interfere".into(),
+                    format!("three threads encoded different family sets at the same moment (round {}); thread {} produced {:?}, alone it produces {:?}", round, i, String::from_utf8_lossy(&got), String::from_utf8_lossy(&jobs[i]())),
+                    inputs[i].0.clone(),
+                ));
+            }
+        }
+        stats.extra.push(("simultaneous_encode_rounds".into(), serde_json::json!(done)));
+        Ok(())
+    }
+
     fn run(&self, src: &mut Src, rep: &mut Report) -> Verdict {
         let real = src.chance(100);
         let (lib, fams): (Vec<prometheus::proto::MetricFamily>, Vec<NFamily>) = if real {
